@@ -16,16 +16,20 @@ CHECKS = {
              "of exactly that arm's log since the last fit/add (running mean, UCB1 with current N, Softmax shares of the "
              "current means summing to 1, Popularity means normalised to 1, Thompson 1+successes/1+failures). Tied to /repo "
              "by a correspondence check: the executable model and the real MAB are run on the same generated histories and "
-             "must agree on predict_expectations, arms, and every sampler request (kind, stream, parameters).",
+             "must agree on predict_expectations, arms, every sampler request (kind, stream, parameters) and - after every step - on "
+             "the state itself (abstraction of the real object graph = the model's state: sums, counts, means, stored expectations, "
+             "Beta counters, status flags).",
         ref="7 (C01)"),
     "C02": dict(
-        text="Lean 4 proof (full for scale=False, exact arithmetic): lin_statistics/stat_linear (after any history each arm's model "
+        text="Lean 4 proof (full given the run-time inverse certificate, exact arithmetic): lin_statistics/stat_linear (after any history each arm's model "
              "holds A = lambda*I + sum x x^T and Xty = sum y x over exactly its rows), inverse_certificate + ridge_closed_form + "
              "beta_unique_solution (the list matrices read as Mathlib matrices: a model whose stored inverse passes the certificate "
              "'square, A*B = I' - re-checked by the driver for every fitted arm model on every run - has B = A^-1, coefficients "
              "(X'X+lambda I)^-1 X'y, the unique solution of the normal equations), linucb_bonus_quadratic_form, linucb_columns, "
-             "reshape_rowwise + squeeze_counterexample (all m, d), k1_counterexample (known finding K1). scale=True only by the "
-             "numpy.linalg.solve oracle twin (single fit, small-unit features, > 2^10 rows). Correspondence d in 1..3, m in 1..5.",
+             "reshape_rowwise + squeeze_counterexample (all m, d), k1_counterexample (known finding K1). scale=True: the per-arm "
+             "StandardScaler statistics are an oracle, the model applies them (scaleRow); cross-checked by the numpy.linalg.solve "
+             "oracle twin (single fit, small-unit features, > 2^10 rows). Correspondence d in 1..3, m in 1..5, A / Xty / A_inv / beta "
+             "of every arm compared after every step.",
         ref="7 (C02)"),
     "C03": dict(
         text="Lean 4 proof (full for exact metrics): radius_exact (selected rows = exactly those within the radius, boundary included), "
@@ -144,11 +148,15 @@ CHECKS = {
              "histories (incl. scale=True scalers, binarizers), restore in a fresh interpreter, every continuation compared.",
         ref="7 (C19)"),
     "C20": dict(
-        text="Lean 4 proof (full for context-free policies, exact arithmetic): fit_perm / partialFit_perm (any row permutation gives the "
-             "identical state), shift_greedy, shift_ucb, shift_softmax_invariant, addXty_scale; run_relabel / init_run_relabel / "
-             "warmStart_relabel / predictExp_relabel / predict_relabel (every history, warm start and prediction of every learning policy "
-             "commutes with a one-to-one relabelling: same values under the renamed keys, same draws). Tied by int<->str<->float "
-             "relabelled twins; permuted (incl. > 2^10 rows, scale=True) / shifted / scaled twins on the code.",
+        text="Lean 4 proof (full, exact arithmetic): fit_perm / partialFit_perm (any row permutation gives the "
+             "identical state), shift_greedy, shift_ucb, shift_softmax_invariant, addXty_scale; relabelling of the whole bandit for "
+             "every history and every policy combination: step_relabel / runHist_relabel / runOuts_relabel / relabel_end_to_end "
+             "(a bandit constructed with renamed arms and driven through the renamed history rejects the same calls, returns the "
+             "renamed arms and the expectations keyed by the new names in the same order, issues the same sampler requests and "
+             "holds the relabelled state: stored history, LSH tables, cluster policies, leaf stores, warm-start status), built on "
+             "run_relabel / warmStart_relabel / predictExp_relabel / predict_relabel for the learning policies. Tied by the "
+             "correspondence (outputs and state after every step), int<->str<->float relabelled twins; permuted (incl. > 2^10 rows, "
+             "scale=True) / shifted / scaled twins on the code.",
         ref="7 (C20)"),
 }
 for _c in CHECKS.values():
@@ -192,7 +200,8 @@ def main():
         "checks": checks,
         "not_applicable": na,
         "notes": "All checks share one Lean project (lean/MabModel) built by setup_cmd; every check re-runs lake build (no-op when fresh), "
-                 "the axiom audit, and the correspondence against /repo's current working tree. Fixes to genuine defects are 'fix:' commits "
+                 "the axiom audit, and the correspondence against /repo's current working tree (outputs, rejections, sampler requests and - after every "
+                 "step - the whole state: harness/absstate.py against the driver's state line). Fixes to genuine defects are 'fix:' commits "
                  "in /repo recorded in known_findings.json.",
     }
     with open(os.path.join(HERE, "MANIFEST.json"), "w") as f:
